@@ -100,8 +100,9 @@ CLAIMED = {
    text="Machine-checked theorems (props/C09.v): the recorded allocation covers exactly held + universe + alpha keys (zero where alpha is "
         "silent); the order list is exactly target - current per target asset and nothing else, ascending (insertion sort proved a sorted "
         "permutation, string order proved transitive), without zero or duplicate entries; current + orders = target for every asset; a zero "
-        "weight sizes to zero under both sizers (liquidation). Tied to /repo by 1-4 successive rebalances on a real SimulatedBroker with "
-        "real PCM and sizers (orders filled at the next open, holdings compared with the target), each PCM call replayed on the model.",
+        "weight sizes to zero under both sizers (liquidation); with any optimiser (pass-through or equal weight) the optimiser is given the alpha weights only - "
+        "named assets get its figure (scale / number of NAMED assets), every other held or universe asset exactly 0 (the_optimiser_sees_only_the_alpha_weights). Tied to /repo by 1-4 successive rebalances on a real SimulatedBroker with "
+        "real PCM and sizers, both optimisers (orders filled at the next open or sent through the ExecutionHandler, holdings compared with the target), each PCM call replayed on the model (pcm_call / pcm_call_opt).",
    note=TRUST + "'holdings equal the target after the fills' is proved on the rules simulator (after_the_next_open_holdings_equal_the_target: filling the pending orders in any order, in particular sells first, lands every asset on its target) and carries over to sessions through the C08 refinement theorems; on the implementation it is exercised end-to-end by the correspondence runs.",
    design="7/C09", technique="Coq proof (permutation / sortedness / association-list lemmas) + model/implementation correspondence check"),
  'C10': dict(
